@@ -1,0 +1,238 @@
+//! Fork/join notification shim standing in for `rayon` inside `system::schedule::stage` when the
+//! crate is built with `--cfg brood_verif`.
+//!
+//! `join` has `rayon::join`'s signature. Modes (selected by the verification harness):
+//!  * `Off`: call `rayon::join` directly (default);
+//!  * `PassThrough`: log `fork` / `join` and track which join node the current closure belongs to,
+//!    then call `rayon::join`;
+//!  * `Deterministic`: run everything on the calling thread; the second closure of every join is
+//!    deferred and a chooser decides, at every fork and before every join returns, which deferred
+//!    closure runs next. Re-executing under every choice sequence produces every order in which
+//!    the closures may execute under the fork/join structure.
+
+extern crate std;
+
+use alloc::vec::Vec;
+use core::cell::Cell;
+use std::sync::{
+    atomic::{
+        AtomicU8,
+        Ordering,
+    },
+    Mutex,
+};
+
+/// Shim mode.
+#[derive(Clone, Copy, Debug, Eq, PartialEq)]
+pub enum Mode {
+    /// Plain `rayon::join`.
+    Off,
+    /// Log and call `rayon::join`.
+    PassThrough,
+    /// Single-threaded, chooser-driven execution.
+    Deterministic,
+}
+
+static MODE: AtomicU8 = AtomicU8::new(0);
+
+/// Select the mode.
+pub fn set_mode(mode: Mode) {
+    MODE.store(
+        match mode {
+            Mode::Off => 0,
+            Mode::PassThrough => 1,
+            Mode::Deterministic => 2,
+        },
+        Ordering::SeqCst,
+    );
+}
+
+/// One logged event.
+#[derive(Clone, Debug)]
+pub struct Event {
+    /// `fork`, `join`, or a harness-defined kind passed to [`note`].
+    pub kind: &'static str,
+    /// Join node the event belongs to (for `note`: the node whose second closure is running on
+    /// this thread, 0 if none).
+    pub node: u32,
+    /// Harness-defined tag (for `note`).
+    pub tag: u32,
+}
+
+struct State {
+    log: Vec<Event>,
+    next_node: u32,
+    // Deterministic mode.
+    pending: Vec<(u32, *mut (dyn FnMut() + 'static))>,
+    choices: Vec<u32>,
+    position: usize,
+    options: Vec<u32>,
+}
+
+// SAFETY: the raw pointers in `pending` are only created and dereferenced in deterministic mode,
+// on the single thread that executes the schedule.
+unsafe impl Send for State {}
+
+static STATE: Mutex<State> = Mutex::new(State {
+    log: Vec::new(),
+    next_node: 1,
+    pending: Vec::new(),
+    choices: Vec::new(),
+    position: 0,
+    options: Vec::new(),
+});
+
+std::thread_local! {
+    static CURRENT: Cell<u32> = const { Cell::new(0) };
+}
+
+fn state() -> std::sync::MutexGuard<'static, State> {
+    STATE.lock().unwrap_or_else(std::sync::PoisonError::into_inner)
+}
+
+/// Start a new recording: clears the log, and installs the choice sequence for deterministic mode.
+pub fn begin(choices: Vec<u32>) {
+    let mut state = state();
+    state.log.clear();
+    state.next_node = 1;
+    state.pending.clear();
+    state.choices = choices;
+    state.position = 0;
+    state.options.clear();
+}
+
+/// Take the log and, for deterministic mode, the number of options that were available at each
+/// decision point of the run.
+pub fn finish() -> (Vec<Event>, Vec<u32>) {
+    let mut state = state();
+    (
+        core::mem::take(&mut state.log),
+        core::mem::take(&mut state.options),
+    )
+}
+
+/// Record a harness event (e.g. task begin / end) attributed to the join node whose second closure
+/// is running on this thread.
+pub fn note(kind: &'static str, tag: u32) {
+    let node = CURRENT.with(Cell::get);
+    state().log.push(Event { kind, node, tag });
+}
+
+fn with_current<T>(node: u32, f: impl FnOnce() -> T) -> T {
+    let previous = CURRENT.with(|current| current.replace(node));
+    let result = f();
+    CURRENT.with(|current| current.set(previous));
+    result
+}
+
+/// Deterministic mode: let the chooser run deferred closures.
+fn scheduling_point() {
+    loop {
+        let picked = {
+            let mut state = state();
+            let available = state.pending.len() as u32;
+            if available == 0 {
+                return;
+            }
+            let position = state.position;
+            let choice = state.choices.get(position).copied().unwrap_or(0).min(available);
+            state.position += 1;
+            state.options.push(available + 1);
+            if choice == 0 {
+                return;
+            }
+            state.pending.remove((choice - 1) as usize)
+        };
+        // SAFETY: the pointer was registered by a `join` frame that is still on the stack (it
+        // removes its entry before returning), and it is only called once.
+        unsafe { (*picked.1)() };
+    }
+}
+
+/// Stand-in for `rayon::join`.
+pub fn join<A, B, RA, RB>(a: A, b: B) -> (RA, RB)
+where
+    A: FnOnce() -> RA + Send,
+    B: FnOnce() -> RB + Send,
+    RA: Send,
+    RB: Send,
+{
+    match MODE.load(Ordering::SeqCst) {
+        0 => ::rayon::join(a, b),
+        1 => {
+            let node = {
+                let mut state = state();
+                let node = state.next_node;
+                state.next_node += 1;
+                state.log.push(Event {
+                    kind: "fork",
+                    node,
+                    tag: 0,
+                });
+                node
+            };
+            let inherited = CURRENT.with(Cell::get);
+            let result = ::rayon::join(
+                move || with_current(inherited, a),
+                move || with_current(node, b),
+            );
+            state().log.push(Event {
+                kind: "join",
+                node,
+                tag: 0,
+            });
+            result
+        }
+        _ => {
+            let node = {
+                let mut state = state();
+                let node = state.next_node;
+                state.next_node += 1;
+                state.log.push(Event {
+                    kind: "fork",
+                    node,
+                    tag: 0,
+                });
+                node
+            };
+            let mut b_slot = Some(b);
+            let mut b_result: Option<RB> = None;
+            let mut run_b = || {
+                if let Some(b) = b_slot.take() {
+                    b_result = Some(with_current(node, b));
+                }
+            };
+            {
+                let short: *mut (dyn FnMut() + '_) = &mut run_b;
+                // SAFETY: only the lifetime is erased; the entry is removed (or consumed by the
+                // chooser) before this frame returns.
+                let erased: *mut (dyn FnMut() + 'static) = unsafe { core::mem::transmute(short) };
+                state().pending.push((node, erased));
+            }
+            scheduling_point();
+            let a_result = a();
+            scheduling_point();
+            let own = {
+                let mut state = state();
+                state
+                    .pending
+                    .iter()
+                    .position(|(pending_node, _)| *pending_node == node)
+                    .map(|position| state.pending.remove(position))
+            };
+            if let Some((_, pointer)) = own {
+                // SAFETY: see above.
+                unsafe { (*pointer)() };
+            }
+            state().log.push(Event {
+                kind: "join",
+                node,
+                tag: 0,
+            });
+            match b_result {
+                Some(b_result) => (a_result, b_result),
+                None => unreachable!(),
+            }
+        }
+    }
+}
